@@ -257,6 +257,55 @@ def generic_rules(body):
     # R7  V.sort_unstable() => V.sort_unstable_v()   (trait shim, prelude/sortv.rs)
     for h in re.finditer(r'\b([A-Za-z_]\w*)\s*\.\s*sort_unstable\(\)', m):
         edits.append((h.start(), h.end(), '%s.sort_unstable_v()' % h.group(1), 'R7'))
+    # R15  E.iter().fold(I, |A, X| B)  =>  { let fold_src__ = &E; let mut A = I; for X in fold_src__.iter() { A = B; } A }
+    #      (definition of Iterator::fold for a closure without control flow; receiver first, then the argument I)
+    for h in re.finditer(r'([A-Za-z_]\w*)\s*\.\s*iter\(\)\s*\.\s*fold\s*\(', m):
+        op = h.end() - 1
+        cl = match_brace(m, op)
+        inner, inner_m = body[op + 1:cl], m[op + 1:cl]
+        depth = 0
+        comma = None
+        for k_, ch in enumerate(inner_m):
+            if ch in '([{':
+                depth += 1
+            elif ch in ')]}':
+                depth -= 1
+            elif ch == ',' and depth == 0:
+                comma = k_
+                break
+        cm = comma is not None and re.match(r'^\s*\|\s*(\w+)\s*,\s*(\w+)\s*\|\s*(.*?)\s*,?\s*$', inner[comma + 1:], re.S)
+        if not cm or re.search(r'\b(return|break|continue)\b|\?', mask(cm.group(3))):
+            raise LostAnchor('rule R15: fold whose arguments are not `init, |acc, x| expr` without control flow')
+        edits.append((h.start(), cl + 1, '{ let fold_src__ = &%s; let mut %s = %s; for %s in fold_src__.iter() { %s = %s; } %s }'
+                      % (h.group(1), cm.group(1), inner[:comma].strip(), cm.group(2), cm.group(1), cm.group(3), cm.group(1)), 'R15'))
+    # R16  for (I, X) in E[..N].iter().enumerate() { B }
+    #        =>  { let enum_s__ = slice_subrange(E.as_slice(), 0, N); let mut I: usize = 0;
+    #              while I < enum_s__.len() { let X = &enum_s__[I]; B  I += 1; } }
+    #      (what `enumerate` over a slice iterator does; `break` in B keeps its meaning, `continue` would skip the
+    #      increment and is refused; the range check of `E[..N]` is the precondition of vstd's slice_subrange)
+    for h in re.finditer(r'\bfor\s*\(\s*(\w+)\s*,\s*(\w+)\s*\)\s*in\s+([A-Za-z_]\w*)\s*\[\s*\.\.\s*([^\]]+?)\s*\]\s*\.\s*iter\(\)\s*\.\s*enumerate\(\)\s*\{', m):
+        ob = h.end() - 1
+        cb = match_brace(m, ob)
+        if re.search(r'\bcontinue\b', m[ob:cb]):
+            raise LostAnchor('rule R16 refuses a loop body with continue')
+        i_, x_, e_, n_ = h.group(1), h.group(2), h.group(3), body[h.start(4):h.end(4)]
+        edits.append((h.start(), h.end(), '{ let enum_s__ = vstd::slice::slice_subrange(%s.as_slice(), 0, %s); let mut %s: usize = 0; '
+                      'while %s < enum_s__.len() { let %s = &enum_s__[%s];' % (e_, n_, i_, i_, x_, i_), 'R16'))
+        edits.append((cb, cb + 1, ' %s += 1; } }' % i_, 'R16'))
+    # R17  E.into_iter().rev().map(|X| B).collect()
+    #        =>  { let mut rev_src__ = E; let mut rev_out__ = Vec::new();
+    #              loop { match rev_src__.pop() { Some(X) => { rev_out__.push(B); } None => break, } } rev_out__ }
+    #      (a Vec consumed from its back, the closure applied in that order, results collected in that order)
+    for h in re.finditer(r'\b([A-Za-z_]\w*)\s*\.\s*into_iter\(\)\s*\.\s*rev\(\)\s*\.\s*map\s*\(', m):
+        op = h.end() - 1
+        cl = match_brace(m, op)
+        t = re.match(r'\s*\.\s*collect\(\)', m[cl + 1:])
+        cm = re.match(r'^\s*\|\s*(\w+)\s*\|\s*(.*?)\s*$', body[op + 1:cl], re.S)
+        if not t or not cm or re.search(r'\b(return|break|continue)\b|\?', mask(cm.group(2))):
+            raise LostAnchor('rule R17: `.into_iter().rev().map(|x| expr).collect()` expected')
+        edits.append((h.start(), cl + 1 + t.end(), '{ let mut rev_src__ = %s; let mut rev_out__ = Vec::new(); '
+                      'loop { match rev_src__.pop() { Some(%s) => { rev_out__.push(%s); } None => break, } } rev_out__ }'
+                      % (h.group(1), cm.group(1), cm.group(2)), 'R17'))
     # overlapping edits (R1 inside R2 etc.) are not expected; keep the outermost
     edits.sort()
     out = []
@@ -618,6 +667,27 @@ def build_fn(key, mode, log):
                 raise LostAnchor('%s:%d: loop %d not found in %s' % (c.rel, d['lineno'], n, where))
             cb = match_brace(masked, block_open_after(masked, loops[n - 1].end()))
             inserts.append((cb + 1, ghost_text(d), tag, d))
+        elif k == 'tail':
+            # rule D13: the tail expression E of the body becomes `let tail__ = E; <proof block> tail__` (a ghost-neutral
+            # binding, so that a hint can speak about the value the function returns)
+            e = len(masked.rstrip())
+            depth = 0
+            st = None
+            for p_ in range(e - 1, -1, -1):
+                ch = masked[p_]
+                if ch in ')]}':
+                    depth += 1
+                elif ch in '([{':
+                    depth -= 1
+                elif ch == ';' and depth == 0:
+                    st = p_ + 1
+                    break
+            if st is None or not masked[st:e].strip() or re.match(r'\s*(let|return|if|match|while|for|loop)\b', masked[st:e]):
+                raise LostAnchor('%s:%d: %s does not end in a plain tail expression' % (c.rel, d['lineno'], where))
+            inserts.append((st, ' let tail__ = ', tag, dict(text=[])))
+            inserts.append((e, ';', tag, dict(text=[])))
+            inserts.append((e, ghost_text(d), tag, d))
+            inserts.append((e, ' tail__ ', tag, dict(text=[])))
         elif k == 'before-tail':
             e = len(masked.rstrip())
             if e == 0 or masked[e - 1] in ';}':
